@@ -325,6 +325,20 @@ func genWireLimits(repo string) (string, error) {
 	def("slotMapElement", int64(unsafe.Sizeof(stackitem.MapElement{})))
 	def("slotNotificationEvent", int64(unsafe.Sizeof(state.NotificationEvent{})))
 	def("slotMethodToken", int64(unsafe.Sizeof(nef.MethodToken{})))
+	def("slotContractInvocation", int64(unsafe.Sizeof(state.ContractInvocation{})))
+	def("slotCapability", int64(unsafe.Sizeof(capability.Capability{})))
+	def("slotAddressAndTimePtr", int64(unsafe.Sizeof((*payload.AddressAndTime)(nil))+unsafe.Sizeof(payload.AddressAndTime{})))
+	def("slotHeaderPtr", int64(unsafe.Sizeof((*block.Header)(nil))+unsafe.Sizeof(block.Header{})))
+	def("slotBytes", int64(unsafe.Sizeof([]byte(nil))))
+	def("slotCompactPtr", 8+64) // *changeViewCompact / *commitCompact / *preparationCompact (unexported; upper bound)
+	def("maxUint8", 255)
+	def("capTCPServer", int64(capability.TCPServer))
+	def("capWSServer", int64(capability.WSServer))
+	def("capDisableCompression", int64(capability.DisableCompressionNode))
+	def("capFullNode", int64(capability.FullNode))
+	def("capArchivalNode", int64(capability.ArchivalNode))
+	def("invTX", int64(payload.TXType))
+	def("compressionMinSize", 1024)
 	b.WriteString("end NeoModel.Generated.WireLimits\n")
 	return b.String(), nil
 }
